@@ -98,7 +98,7 @@ func loadExpected(path string) []string {
 
 func (r *Report) Finish() int {
 	known := loadKnown(filepath.Join(r.VerifDir, "known_findings.txt"))
-	expected := loadExpected(filepath.Join(r.VerifDir, "expected", r.Prop+".obligations"))
+	expected := loadExpected(filepath.Join(r.VerifDir, "expected", r.Prop+"."+r.Tier+".obligations"))
 	replayDir := filepath.Join(r.VerifDir, "replay", r.Prop)
 	os.MkdirAll(replayDir, 0755)
 	nObl, nDis, nCover := 0, 0, 0
